@@ -198,3 +198,79 @@ func init() {
 	})
 	_ = types.Typ
 }
+
+// Abstract strings.Builder (job parameter abstractbuilder=1): writes are not recorded and String() yields text of
+// unknown content. Sound for "does not panic" claims — Builder methods do not panic and the text flows nowhere but into
+// other text — and it lets the paths of a rendering loop merge again (they differ only in what was written).
+// Len() is refused, since it would need the content.
+func init() {
+	extraIntrinsics = append(extraIntrinsics, func(e *Engine) {
+		wrap := func(key string, abstract func(e *Engine, st *State, cc *ssa.CallCommon, a []Value) Value) {
+			old := e.intr[key]
+			e.intr[key] = func(e *Engine, st *State, cc *ssa.CallCommon, a []Value) Value {
+				if e.Params["abstractbuilder"] != 1 {
+					return old(e, st, cc, a)
+				}
+				if isNilPtr(a[0]) {
+					e.fail(st, "panic", "nil pointer dereference (strings.Builder method on nil)")
+					return nil
+				}
+				return abstract(e, st, cc, a)
+			}
+		}
+		nErr := func(n *Term) Value { return TupleVal{Vals: []Value{n, IfaceVal{}}} }
+		wrap("(*strings.Builder).WriteString", func(e *Engine, st *State, cc *ssa.CallCommon, a []Value) Value {
+			sv := a[1].(StringVal)
+			if sv.Atom != nil {
+				return nErr(e.atomLen(sv))
+			}
+			return nErr(ConstBV(uint64(len(sv.Bytes)), 64))
+		})
+		wrap("(*strings.Builder).WriteByte", func(e *Engine, st *State, cc *ssa.CallCommon, a []Value) Value { return IfaceVal{} })
+		wrap("(*strings.Builder).WriteRune", func(e *Engine, st *State, cc *ssa.CallCommon, a []Value) Value { return nErr(ConstBV(1, 64)) })
+		wrap("(*strings.Builder).String", func(e *Engine, st *State, cc *ssa.CallCommon, a []Value) Value { return e.opaqueString() })
+		wrap("(*strings.Builder).Reset", func(e *Engine, st *State, cc *ssa.CallCommon, a []Value) Value { return nil })
+		wrap("(*strings.Builder).Len", func(e *Engine, st *State, cc *ssa.CallCommon, a []Value) Value {
+			unsupported("strings.Builder.Len with the abstract builder")
+			return nil
+		})
+	})
+}
+
+// errors.As(err, target): contract: the error chain is the error itself (a dynamic type with an Unwrap method is
+// refused); target is a non-nil pointer to a concrete type or an interface type.
+func init() {
+	extraIntrinsics = append(extraIntrinsics, func(e *Engine) {
+		e.intr["errors.As"] = func(e *Engine, st *State, cc *ssa.CallCommon, a []Value) Value {
+			err := a[0].(IfaceVal)
+			tgt := a[1].(IfaceVal)
+			if err.Type == nil {
+				return FalseT
+			}
+			pt, ok := tgt.Type.(*types.Pointer)
+			if !ok || isNilPtr(tgt.Val) {
+				e.fail(st, "panic", "errors: target must be a non-nil pointer")
+				return nil
+			}
+			ms := e.L.Prog.MethodSets.MethodSet(err.Type)
+			for i := 0; i < ms.Len(); i++ {
+				if ms.At(i).Obj().Name() == "Unwrap" {
+					unsupported("errors.As on a wrapping error %v", err.Type)
+				}
+			}
+			T := pt.Elem()
+			if types.IsInterface(T) {
+				if types.Implements(err.Type, T.Underlying().(*types.Interface)) {
+					e.store(st, tgt.Val.(PtrVal), err)
+					return TrueT
+				}
+				return FalseT
+			}
+			if types.Identical(err.Type, T) {
+				e.store(st, tgt.Val.(PtrVal), err.Val)
+				return TrueT
+			}
+			return FalseT
+		}
+	})
+}
